@@ -15,7 +15,7 @@ Oracle: vf/c09_ref.py (independent lexer for the Part 21 token grammar of each k
 The token enumeration is exhaustive for the stated length bound (not sampled), so the key set does not depend on
 the seed; the seed only permutes batch order and picks the samples shown in the evidence.
 """
-import itertools
+import itertools, math
 from decimal import Decimal
 import os
 import random
@@ -38,6 +38,9 @@ ENTITY e;
   lo : OPTIONAL LOGICAL;
   en : OPTIONAL en;
   rf : OPTIONAL tgt;
+  li : OPTIONAL LIST OF INTEGER;
+  lr : OPTIONAL LIST OF REAL;
+  ln : OPTIONAL LIST OF NUMBER;
 END_ENTITY;
 END_SCHEMA;
 """
@@ -166,6 +169,8 @@ def writer_values(kind, tier):
         vs = set([0.0, -0.0, 1.7976931348623157e308, -1.7976931348623157e308, 2.2250738585072014e-308, 4.9e-324, -4.9e-324, 2.2250738585072009e-308,
                   1e15, 1e16, 999999999999999.0, 9999999999999998.0, 1e22, 1e23, 123456789012345678.0, 0.001, 0.0001, 0.00001, 1.0 / 3.0, 2.0 / 3.0,
                   1.17549435e-38, 3.4028234663852886e38, 100000.0, 1000000.0, 0.5, 0.30000000000000004, 4503599627370496.5, 9007199254740992.0])
+        fm = R.REAL_SENTINEL                                       # neighbours of the in-band null marker are ordinary values
+        vs.update([math.nextafter(fm, 1.0), math.nextafter(fm, 0.0), fm * (1 + 2.0 ** -24), fm * (1 - 2.0 ** -24), fm * (1 + 2.0 ** -30), -fm])
         step = 1
         for e in range(-300, 301, step):
             for m in ms:
@@ -467,6 +472,12 @@ def work_write(unit):
                 syms.append(('write-read mismatch', 'value %s written as %r' % (v, wr)))
             elif sev < NOERR or null or not values_equal(kind, back, want_back) or pos != len(wr):
                 syms.append(('write-read mismatch', 'value %s written as %r reads back severity %d is_null %s value %r position %d' % (v, wr, sev, null, back, pos)))
+            # the same token as the only element of a LIST OF <kind>: the element writer must render it identically
+            if not syms and kind in ('INTEGER', 'REAL', 'NUMBER') and len(f) > 9 and f[8] != '-':
+                aggw, aggsev = _unhex(f[8]), int(f[9])
+                res['seen'].add((kind, 'write as aggregate element', vc, len(aggw)))
+                if aggsev < NOERR or aggw != '(' + wr + ')':
+                    syms.append(('aggregate element written differently from the scalar', 'value %s: scalar %r, LIST element read severity %d written %r' % (v, wr, aggsev, aggw)))
             # asStr is the display form: it must still denote the value
             if kind == 'INTEGER':
                 as_ok = asr == str(int(v))
